@@ -336,3 +336,12 @@ claim(
     "abstract interpretation with symbolic spacing / centre against closed-form edges; polynomial identities for time step and metric factors; order-type enumeration for origin independence",
     "DESIGN.md §5 C38",
 )
+
+claim(
+    "C36",
+    "other",
+    "Narrow: boundedness over 10^4 steps (clause 2) is a statement about trajectories and is not decided. Decided: clause 1 — update_E interpreted on symbolic fields with two poles, isotropic / per-axis coefficient layouts, isotropic / diagonal permittivity, with and without conductivity and dE/dt (c4) coupling: P' = c1 P + c2 P_prev + c3 E (+ c4 E'), P_prev' = P, and the new field satisfies the discrete Ampere law with polarisation current, (1+a) E' = (1-a) E + c inv_eps curl H - inv_eps sum_p (P'_p - P_p), identically in all symbols; with all coefficients and the stored polarisation zero the step equals the non-dispersive step of the same material (iso / diagonal with and without conductivity, full tensor lossless) and the polarisation stays zero. The static side of clause 2: both coefficient routines raise exactly when a coupled axis has omega_0 dt >= 2 (all guard paths enumerated), the Jury margins of z^2 - c1 z - c2 are then non-negative, and placement obtains its coefficient arrays only from those routines.",
+    TB + "; Levi-Civita oracle of C01; discrete Ampere law with polarisation current as the oracle; identity linalg.solve for the lossless full tensor",
+    "abstract interpretation over a stencil domain; residual polynomial identity against the discrete Ampere law; path enumeration of the acceptance guard; who-may-call table",
+    "DESIGN.md §5 C36",
+)
